@@ -13,6 +13,7 @@ import (
 	"fmt"
 	"math"
 	"sort"
+	"strconv"
 	"strings"
 	"sync"
 	"unsafe"
@@ -1641,12 +1642,36 @@ func parseFieldNumValue(s string) (float64, int32, error) {
 		return 0, Field_Type_Unknown, fmt.Errorf("invalid field value")
 	}
 
-	f := fastfloat.ParseBestEffort(s)
-	if math.IsNaN(f) || math.IsInf(f, 0) {
-		return 0, Field_Type_Unknown, fmt.Errorf("invalid number")
+	f, err := parseValidFloat(s)
+	if err != nil {
+		return 0, Field_Type_Unknown, err
 	}
 
 	return f, Field_Type_Float, nil
+}
+
+// parseValidFloat converts a text accepted by IsValidNumber. fastfloat.ParseBestEffort is neither
+// correctly rounded for exponent forms nor does it know a leading '+' or "-12.", so it is used for
+// plain digits[.digits] only.
+func parseValidFloat(s string) (float64, error) {
+	fast := s[0] != '+' && s[len(s)-1] != '.' && len(s) <= 16
+	for i := 0; fast && i < len(s); i++ {
+		fast = s[i] != 'e' && s[i] != 'E'
+	}
+	var f float64
+	if fast {
+		f = fastfloat.ParseBestEffort(s)
+	} else {
+		var err error
+		f, err = strconv.ParseFloat(s, 64)
+		if err != nil && !math.IsInf(f, 0) {
+			return 0, fmt.Errorf("invalid number")
+		}
+	}
+	if math.IsNaN(f) || math.IsInf(f, 0) {
+		return 0, fmt.Errorf("invalid number")
+	}
+	return f, nil
 }
 
 func parseFieldStrValue(s string) (string, error) {
